@@ -8,7 +8,8 @@ struct Case {
   std::vector<std::pair<int, std::vector<int>>> rules;  // lhs, rhs symbols: 0=A 1=B (non-terminals), 10+t = terminal t
   std::string json() const { std::string o = "{\"kind\":\"grammar\",\"rules\":["; for (size_t i = 0; i < rules.size(); i++) { if (i) o += ","; o += "[" + std::to_string(rules[i].first) + "," + vf::jarr_num(rules[i].second) + "]"; } return o + "]}"; }
   uint64_t hash() const { uint64_t h = 7; for (auto &r : rules) { h = vf::mix(h ^ (uint64_t)r.first); for (int s : r.second) h = vf::mix(h * 31 + s); h = vf::mix(h + 1234567); } return h; }
-  std::string text() const { std::string o; for (auto &r : rules) { o += (r.first ? "B ->" : "A ->"); for (int s : r.second) o += s < 10 ? (s ? " B" : " A") : " t" + std::to_string(s - 10); if (r.second.empty()) o += " eps"; o += "; "; } return o; }
+  std::string text() const { std::string o; const char *nm = "ABCDEFGH"; for (auto &r : rules) { o += std::string(1, nm[r.first]) + " ->"; for (int s : r.second) o += s < 10 ? " " + std::string(1, nm[s]) : " t" + std::to_string(s - 10); if (r.second.empty()) o += " eps"; o += "; "; } return o; }
+  int nnt() const { int n = 2; for (auto &r : rules) { n = std::max(n, r.first + 1); for (int s : r.second) if (s < 10) n = std::max(n, s + 1); } return n; }
   std::string key() const { return "grammar:" + text(); }
   static Case from(const vf::J &j) { Case c; for (auto &r : j["rules"].a) { std::vector<int> rhs; for (auto &s : r.a[1].a) rhs.push_back((int)s.i()); c.rules.push_back({(int)r.a[0].i(), rhs}); } return c; }
 };
@@ -37,12 +38,12 @@ static int g_maxlen = 4;
 
 static void oracle_C13(const Case &c, vf::Stats &st) {
   st.add("cases"); std::string cj = c.json(), key = c.key();
-  reflr::Grammar rg; rg.nnt = 2; rg.start = 0; int maxterm = 0;
+  int NNT = c.nnt(); reflr::Grammar rg; rg.nnt = NNT; rg.start = 0; int maxterm = 0;
   for (auto &r : c.rules) { reflr::Rule rr; rr.lhs = r.first; for (int s : r.second) { if (s < 10) rr.rhs.push_back({false, s}); else { rr.rhs.push_back({true, s - 10}); maxterm = std::max(maxterm, s - 10); } } rg.rules.push_back(rr); }
   reflr::First rf = reflr::first_sets(rg);
   bool any_ambiguous = false, any_member = false; uint64_t oh = 0;
   for (int prefix = 0; prefix < 2; prefix++) {
-    Theo::SemanticGrammar<std::string> sg; auto A = sg.createNonTerminal(), B = sg.createNonTerminal(); Theo::Grammar::Symbol nts[2] = {A, B};
+    Theo::SemanticGrammar<std::string> sg; std::vector<Theo::Grammar::Symbol> nts; for (int i = 0; i < NNT; i++) nts.push_back(sg.createNonTerminal()); auto A = nts[0];
     for (size_t i = 0; i < c.rules.size(); i++) {
       std::vector<Theo::Grammar::Symbol> rhs; for (int s : c.rules[i].second) rhs.push_back(s < 10 ? nts[s] : Theo::Grammar::Symbol::Terminal(s - 10));
       int idx = (int)i;
@@ -51,10 +52,10 @@ static void oracle_C13(const Case &c, vf::Stats &st) {
     Theo::LRParser<std::string, int> p(sg, prefix != 0, [](int t) { return Theo::Grammar::Symbol::Terminal(t); }, [](int t) { return "t" + std::to_string(t); }, A, Theo::Grammar::Symbol::Terminal(0));
     auto gen = p.generateParseTables();
     // FIRST sets
-    if (prefix == 0) for (int X = 0; X < 2; X++) {
+    if (prefix == 0) for (int X = 0; X < NNT; X++) {
       std::set<int> got; bool geps = false; auto it = p.G.first_sets.find(nts[X]);
       if (it != p.G.first_sets.end()) for (auto &s : it->second) { if (s.t == Theo::Grammar::Symbol::TERMINAL) got.insert(s.index); else if (s.t == Theo::Grammar::Symbol::EPSILON) geps = true; }
-      if (got != rf.first[X] || geps != rf.nullable[X]) { st.violation(key, std::string("FIRST(") + (X ? "B" : "A") + ") differs from the textbook definition: terminals " + vf::jarr_num(std::vector<int>(got.begin(), got.end())) + (geps ? "+eps" : "") + ", expected " + vf::jarr_num(std::vector<int>(rf.first[X].begin(), rf.first[X].end())) + (rf.nullable[X] ? "+eps" : ""), cj); return; }
+      if (got != rf.first[X] || geps != rf.nullable[X]) { st.violation(key, std::string("FIRST(") + std::string(1, "ABCDEFGH"[X]) + ") differs from the textbook definition: terminals " + vf::jarr_num(std::vector<int>(got.begin(), got.end())) + (geps ? "+eps" : "") + ", expected " + vf::jarr_num(std::vector<int>(rf.first[X].begin(), rf.first[X].end())) + (rf.nullable[X] ? "+eps" : ""), cj); return; }
     }
     // all end-marked inputs over terminals 1..maxterm up to the length bound
     bool ambiguous_here = false;
@@ -95,10 +96,20 @@ static void oracle_C13(const Case &c, vf::Stats &st) {
   if (any_member && c.rules.size() >= 3) st.sample("{\"grammar\":" + vf::jstr(c.text()) + "}", 3);
 }
 
+// chain-shaped grammars over 4 non-terminals created top-down (user before used), one rule each, rhs over later
+// non-terminals and one terminal: indirect nullable chains, the shapes the macro engine's slot grammar has
+static Level fam_chains(bool full) {
+  return {std::string("chain grammars(4 NT, one rule each, rhs<=2") + (full ? ", any NT)" : ", later NTs)"), [=](const CB &cb) {
+            std::vector<std::vector<std::vector<int>>> opts(4);
+            for (int i = 0; i < 4; i++) { std::vector<int> syms; for (int j = full ? 0 : i + 1; j < 4; j++) syms.push_back(j); syms.push_back(11);
+              opts[i].push_back({}); for (int a : syms) { opts[i].push_back({a}); for (int b : syms) opts[i].push_back({a, b}); } }
+            for (auto &r0 : opts[0]) for (auto &r1 : opts[1]) for (auto &r2 : opts[2]) for (auto &r3 : opts[3]) { Case c; c.rules = {{0, r0}, {1, r1}, {2, r2}, {3, r3}}; cb(c); } }};
+}
+
 int main(int argc, char **argv) {
   drv::Args args = drv::Args::parse(argc, argv); bool T = args.thorough();
   if (args.prop != "C13") { fprintf(stderr, "ERROR: unknown property\n"); return 2; }
-  std::vector<Level> L = {fam_grammars(2, 2), fam_grammars(3, 2)};
-  if (T) { g_maxlen = 5; L.push_back(fam_grammars(4, 2)); L.push_back(fam_grammars(3, 3)); }
+  std::vector<Level> L = {fam_grammars(2, 2), fam_chains(false), fam_grammars(3, 2)};
+  if (T) { g_maxlen = 5; L.push_back(fam_grammars(4, 2)); L.push_back(fam_chains(true)); L.push_back(fam_grammars(3, 3)); }
   return drv::run<Case>(args, L, oracle_C13, {}, 30);
 }
